@@ -19,6 +19,8 @@ def variants(case, tier, idx):
         vs.append({"memory": "tcut", "start": 0.5})
     if idx % 5 == 1:
         vs.append({"memory": "dkmax", "start": -0.75, "dt": 0.125})
+    if idx % 7 == 2 and case["A"] != eng.AINF and case["N"] <= 3:
+        vs.append({"memory": "dkmax", "bath": "customcorr"})
     if tier == "thorough":
         vs.append({"memory": "dkmax", "start": 1.0, "dt": 0.5, "unique": True})
     return vs
